@@ -8,6 +8,7 @@ import (
 	"encoding/json"
 	"math/big"
 	"regexp"
+	"sort"
 	"strings"
 	"unicode/utf8"
 )
@@ -102,6 +103,11 @@ func (vd *Validator) Valid(s M, v any) (ok bool, amb bool) {
 			if o {
 				n++
 			}
+		}
+		if n > 1 {
+			// invalid under JSON Schema, but then the sum is not "unambiguously discriminated" (an
+			// object that satisfies several open variants): outside the oracle wherever it occurs
+			return false, true
 		}
 		return n == 1, amb
 	}
@@ -350,4 +356,116 @@ func (vd *Validator) DiscriminatorDisagrees(s M, v any, plain bool) bool {
 	}
 	ok, _ := vd.Valid(M{"$ref": ref}, v)
 	return ok != plain
+}
+
+// SeveralVariantsMatch: an instance that satisfies more than one variant of a oneOf is invalid under
+// JSON Schema, but the sum is then not "unambiguously discriminated": outside the oracle.
+func (vd *Validator) SeveralVariantsMatch(s M, v any) bool {
+	vars := list(s["oneOf"])
+	if len(vars) < 2 {
+		return false
+	}
+	n := 0
+	for _, sub := range vars {
+		if sm, ok := sub.(M); ok {
+			if ok, _ := vd.Valid(sm, v); ok {
+				n++
+			}
+		}
+	}
+	return n > 1
+}
+
+// Traits names keyword combinations present anywhere in a schema (references followed once).
+func (vd *Validator) Traits(s M) []string {
+	found := map[string]bool{}
+	seen := map[string]bool{}
+	arrayRefs := map[string]int{}
+	var walk func(x any)
+	walk = func(x any) {
+		switch t := x.(type) {
+		case M:
+			if ref, ok := t["$ref"].(string); ok {
+				name := ref[strings.LastIndex(ref, "/")+1:]
+				if c, ok := vd.Components[name].(M); ok && c["type"] == "array" {
+					arrayRefs[name]++
+					if arrayRefs[name] > 1 {
+						found["named_array_component_used_more_than_once"] = true
+					}
+				}
+				if !seen[name] {
+					seen[name] = true
+					walk(vd.Components[name])
+				}
+				return
+			}
+			if _, has := t["enum"]; has {
+				for _, kw := range []string{"minimum", "maximum", "multipleOf", "minLength", "maxLength", "pattern"} {
+					if _, has := t[kw]; has {
+						found["enum_next_to_a_value_constraint"] = true
+					}
+				}
+			}
+			props, _ := t["properties"].(M)
+			for _, r := range list(t["required"]) {
+				if name, ok := r.(string); ok {
+					if _, declared := props[name]; !declared {
+						found["required_names_an_undeclared_member"] = true
+					}
+				}
+			}
+			for _, v := range t {
+				walk(v)
+			}
+		case []any:
+			for _, v := range t {
+				walk(v)
+			}
+		}
+	}
+	walk(s)
+	var out []string
+	for k := range found {
+		out = append(out, k)
+	}
+	sort.Strings(out)
+	return out
+}
+
+// MemberPointsAtAnotherVariant: sums told apart by own members read an instance that carries a member
+// declared by exactly one variant as that variant.  If that variant refuses the instance while an
+// open sibling accepts it (the member being an undeclared extra there), JSON Schema says valid and
+// member-based discrimination says invalid: not "unambiguous discrimination", outside the oracle.
+func (vd *Validator) MemberPointsAtAnotherVariant(s M, v any) bool {
+	vars := list(s["oneOf"])
+	if vars == nil {
+		vars = list(s["anyOf"])
+	}
+	obj, isO := v.(M)
+	if vars == nil || !isO {
+		return false
+	}
+	owner := map[string]int{}
+	cnt := map[string]int{}
+	resolved := make([]M, len(vars))
+	for i, sub := range vars {
+		sm, _ := sub.(M)
+		if ref, has := sm["$ref"].(string); has {
+			sm, _ = vd.Components[strings.TrimPrefix(ref, "#/components/schemas/")].(M)
+		}
+		resolved[i] = sm
+		props, _ := sm["properties"].(M)
+		for k := range props {
+			owner[k] = i
+			cnt[k]++
+		}
+	}
+	for k := range obj {
+		if cnt[k] == 1 {
+			if ok, _ := vd.Valid(resolved[owner[k]], v); !ok {
+				return true
+			}
+		}
+	}
+	return false
 }
